@@ -1,13 +1,18 @@
 #!/usr/bin/env python3
-"""MANIFEST.setup_cmd: build everything once, offline, from files on disk:
-the sanitizer build of /repo/src + harness, the generated constants, the Lean project."""
+"""MANIFEST.setup_cmd: build once, offline, from files on disk, what the registered checks need:
+the sanitizer and the plain build of /repo/src + harness, the generated constants, the Lean model
+driver and the property module of every claimed property (not work-in-progress proof files of
+areas that are not registered yet).  Every check rebuilds what it needs itself; this only warms
+the caches."""
 import os, subprocess, sys
 HERE = os.path.dirname(os.path.abspath(__file__))
 sys.path.insert(0, HERE)
-import build_repo, gen_constants
+import build_repo, gen_constants, props
 VERIF = os.path.dirname(HERE)
-exe = build_repo.build(build_repo.harness_sources(), "tmcg_harness", "san")
-print("harness:", exe)
+for fl in ("san", "fast"):
+    exe = build_repo.build(build_repo.harness_sources(), "tmcg_harness", fl)
+    print("harness:", exe)
 gen_constants.main()
-r = subprocess.run(["lake", "build"], cwd=os.path.join(VERIF, "lean"))
+targets = ["tmcg_model"] + sorted({P["module"] for P in props.PROPS.values() if P["obligations"]})
+r = subprocess.run(["lake", "build"] + targets, cwd=os.path.join(VERIF, "lean"))
 sys.exit(r.returncode)
